@@ -245,6 +245,9 @@ def execute(sim: Any, spec: Spec, op: dict) -> tuple[list[dict], bool]:
         raised = f"ValueError: {e}"
     except Exception as e:  # noqa: BLE001
         raised = f"{type(e).__name__}: {e}"[:300]
+    for key_, arr_ in spec.grids.items():
+        if arr_.shape != (len(key_),) or not np.array_equal(arr_, np.array(key_, dtype=float)):
+            return [{"what": "a grid of time points handed to the simulator was changed behind the caller's back", "op": op, "written": list(key_), "now": arr_.tolist()}], True
     if raised is not None:
         if legal:
             return [{"what": "legal operation raised" if not raised.startswith("ValueError") else "legal continuation refused", "op": op, "error": raised, "t_reached": spec.t_reached}], True
